@@ -166,7 +166,7 @@ def gen_case(rng, idx):
     ncomp = rng.choice([1, 1, 2])
     level = rng.choice(['group', 'comp']) if ncomp == 1 else 'group'
     scale_mode = rng.choice(['none', 'pos', 'pos', 'neg', 'mixed', 'mixsign', 'mixsign'])
-    sizes = [1, 1, 2, 3] if scale_mode != 'mixsign' else [1, 2, 3, 3, 4]
+    sizes = [1, 1, 2, 3, 4] if scale_mode != 'mixsign' else [1, 2, 3, 4, 4]
     vars_ = []
     for c in range(ncomp):
         for j in range(rng.choice([1, 1, 2, 3, 4]) if ncomp == 1 else rng.choice([1, 2])):
@@ -177,7 +177,7 @@ def gen_case(rng, idx):
     for v in vars_:
         n = v['size']
         # a size-4 variable may be declared with shape (2, 2): bounds / ref / ref0 arrays are then 2-D
-        v['shape'] = [2, 2] if (n == 4 and rng.random() < 0.5) else [n]
+        v['shape'] = [2, 2] if (n == 4 and rng.random() < 0.6) else [n]
         # --- scaling class of this variable
         if scale_mode == 'mixed':
             sm = rng.choice(['none', 'pos', 'neg'] + (['mixsign'] if n > 1 else []))
